@@ -242,6 +242,19 @@ def fixed_project(name: str, stage: int = 0):
                      "leaf": [A.read("inp.txt"), A.nop(), A.write("leaf.txt")]},
             files={"inp.txt": ["one\n", "two\n"][stage], "cfg.txt": ["cfg 0\n", "cfg 1\n"][stage],
                    "sub.py": plan_file(sub), "subsub.py": plan_file(subsub)})
+    if name == "deferred-grand-creator":
+        # like deferred-creator, one level deeper: `sub` defines `./subsub.py`, which defines `slow`; `sub` is
+        # deferred on gen.txt and runs again while `slow` is RUNNING two levels below it
+        subsub = [A.step("slow", inp=["a.txt"], out=["slow.txt"])]
+        sub = [A.step("./subsub.py", inp=["subsub.py"]), A.nop(), A.nop(), A.amend(inp=["gen.txt"]), A.read("gen.txt")]
+        return Project(
+            scripts={"./plan.py": [A.static("a.txt", "sub.py", "subsub.py"), A.step("gen", inp=["a.txt"], out=["gen.txt"]),
+                                   A.step("./sub.py", inp=["sub.py"], plan=True)],
+                     "./sub.py": sub, "./subsub.py": subsub,
+                     "gen": [A.read("a.txt"), A.nop(), A.nop(), A.nop(), A.nop(), A.nop(), A.write("gen.txt")],
+                     "slow": [A.read("a.txt"), A.nop(), A.nop(), A.nop(), A.nop(), A.nop(), A.nop(), A.nop(), A.nop(),
+                              A.nop(), A.nop(), A.write("slow.txt")]},
+            files={"a.txt": "A\n", "sub.py": plan_file(sub), "subsub.py": plan_file(subsub)})
     if name == "deferred-creator":
         # `sub` defines `slow`, then amends gen.txt, which is not built yet: `sub` is deferred while `slow`
         # runs; when gen.txt is there `sub` runs again, detaches the RUNNING `slow` and recycles it.
@@ -697,6 +710,10 @@ async def search(ctx):
     for j, (njob, sched) in enumerate(((3, "fifo"), (3, "random"), (2, "lifo"))):
         fixed.append({"id": [ctx.seed, -1 - j], "fixed": "deferred-creator", "model_seed": 1000 * ctx.seed + j,
                       "nstep": 3, "njob": njob, "sched": sched, "restart_sched": "random" if j else "fifo", "nmut": 0,
+                      "mut_seed": 0, "step_points": True, "watch": False})
+    for j, (njob, sched) in enumerate(((3, "fifo"), (3, "random"))):
+        fixed.append({"id": [ctx.seed, -21 - j], "fixed": "deferred-grand-creator", "model_seed": 1000 * ctx.seed + 77 + j,
+                      "nstep": 3, "njob": njob, "sched": sched, "restart_sched": "fifo", "nmut": 0,
                       "mut_seed": 0, "step_points": True, "watch": False})
     for j, (njob, sched) in enumerate(((1, "fifo"), (2, "random"))):
         fixed.append({"id": [ctx.seed, -11 - j], "fixed": "three-levels", "model_seed": 1000 * ctx.seed + 50 + j,
